@@ -93,13 +93,13 @@ func init() {
 			New: func(int) *c22Node {
 				return &c22Node{m: machine.New(machine.ROMOnly(), machine.Opts{}), mod: ref.NewJoypad()}
 			},
-			Save: func(n *c22Node) any { return c22Snap{*n.m.C, n.mod} },
-			Load: func(n *c22Node, s any) { *n.m.C, n.mod = s.(c22Snap).C, s.(c22Snap).Mod },
+			Save:       func(n *c22Node) any { return c22Snap{*n.m.C, n.mod} },
+			Load:       func(n *c22Node, s any) { *n.m.C, n.mod = s.(c22Snap).C, s.(c22Snap).Mod },
 			CrossCheck: 97,
 			Events:     func(*c22Node) []c22Ev { return evs },
-			MaxDepth: 0,
-			MaxDev:   -1,
-			Opt:      explore.PartOpt{Bound: "unbounded depth, closure", Domain: "16 press/release events + 256 JOYP writes from power-on"},
+			MaxDepth:   0,
+			MaxDev:     -1,
+			Opt:        explore.PartOpt{Bound: "unbounded depth, closure", Domain: "16 press/release events + 256 JOYP writes from power-on"},
 		})
 	})
 }
